@@ -204,6 +204,85 @@ PROPS["C12"] = dict(
                       "sequences_reaching_step_limit": 3},
             "thorough": {"nontrivial_sequences": 600, "lockstep_runs": 300}})
 
+GEN_ASSUME = [
+    "documented-valid domain as stated in DESIGN.md §4 C15: num_hosts >= 3, "
+    "num_services/os/processes >= 1, num_exploits in [1, S*(O+1)], "
+    "num_privescs in [1, P*(O+1)], restrictiveness >= 1, alpha/lambda > 0, "
+    "probabilities None / float / list in (0,1] / 'mixed', uniform only "
+    "with <= 10 services, bounds None or >= actual sizes",
+    "termination is decided on interpreter LINE events of generator.py "
+    "(budget 3e6, >20x the largest count observed), never on wall time",
+    "held = no refuting event on the parameter sets observed",
+]
+PROPS["C15"] = dict(
+    module="nv.props.gen", level="exploration",
+    shards={"quick": 8, "thorough": 16},
+    timeout={"quick": 900, "thorough": 7200},
+    rule="random parameter sets from the documented-valid domain (incl. "
+    "boundaries: hosts 3/40/41/42/81/82, exploits = S*(O+1), privescs > "
+    "processes, alpha in {0.1..7.3}, restrictiveness 1..S+2, list/mixed/"
+    "None probabilities, random_goal, custom bounds) x seeds, the nine "
+    "benchmark sets x seeds and fixed edge cases; each result is validated "
+    "clause by clause by a validator written from the statement, under a "
+    "sys.monitoring line-event budget; non-trivial = distinct non-benchmark "
+    "parameter sets that completed and were validated",
+    assumptions=GEN_ASSUME,
+    floors={"quick": {"generated_and_validated": 250,
+                      "privescs_exceed_processes": 20,
+                      "exploits_at_maximum": 15, "more_than_40_hosts": 15,
+                      "rules_at_restrictiveness_limit": 100,
+                      "clause:cross_zone_between_1_and_R": 1000,
+                      "clause:user_subnets_unrestricted": 50},
+            "thorough": {"generated_and_validated": 9000,
+                         "privescs_exceed_processes": 800}})
+PROPS["C16"] = dict(
+    module="nv.props.gen", level="exploration",
+    shards={"quick": 8, "thorough": 16},
+    timeout={"quick": 900, "thorough": 7200},
+    rule="nine shipped files, nine generated benchmarks x seeds and random "
+    "domain parameter sets (biased to restrictiveness 1, one exploit, few "
+    "escalations, > 41 hosts, random_goal): the reference model's monotone "
+    "attack closure yields a plan that is replayed through NASimEnv.step "
+    "with every draw forced to succeed and must end with terminated=True; "
+    "when the model finds no plan the closure is run on the real "
+    "environment itself before 'unsolvable' is reported; non-trivial = "
+    "distinct scenarios whose plan needs an escalation or pivots while some "
+    "cross-zone rule admits a single service",
+    assumptions=GEN_ASSUME + [
+        "dynamics are monotone (more footholds never disable an action), so "
+        "the greedy closure is complete for reachability of the goal"],
+    floors={"quick": {"solved": 110, "cases:shipped": 9,
+                      "plans_with_escalation": 30, "plans_with_pivot": 80,
+                      "solved_by_model_plan": 100},
+            "thorough": {"solved": 3000, "plans_with_escalation": 800}})
+
+PROPS["C14"] = dict(
+    module="nv.props.repro", level="exploration",
+    shards={"quick": 6, "thorough": 16},
+    timeout={"quick": 1200, "thorough": 7200},
+    rule="every case (generator parameter set + seed, generated benchmark + "
+    "seed, or scenario + np.random.seed(k) + fixed action sequence chosen by "
+    "a pilot run) is executed twice in each of K child interpreters started "
+    "with PYTHONHASHSEED in {0,1,4242,random} (thorough: 0,1,2,3,17,4242,"
+    "random); canonical fingerprints of the scenario (hosts, firewall as "
+    "sets, exploits, escalations, sensitive hosts, topology) or of the "
+    "trajectory (state bytes, observation bytes, reward, flags) must all be "
+    "equal; non-trivial = generated cases in which the generator's "
+    "set-iteration branch (>= restrictiveness exploitable services in a "
+    "cross-zone destination) was reached, and trajectories with >= 5 chance "
+    "failures",
+    assumptions=[
+        "PYTHONHASHSEED is sampled (4 resp. 7 values), not enumerated; the "
+        "workload is steered into every place where a set of strings is "
+        "iterated and the reach of that branch is counted",
+        "held = equal fingerprints on the cases observed"],
+    floors={"quick": {"generated_cases_reaching_set_choice_branch": 120,
+                      "trajectories_with_5_chance_steps": 10,
+                      "cases:traj": 30, "cases:bench": 20,
+                      "extra:distinct_hash_probes": 2},
+            "thorough": {"generated_cases_reaching_set_choice_branch": 3000,
+                         "trajectories_with_5_chance_steps": 300}})
+
 NOT_APPLICABLE = {}
 
 ENGINES = [
@@ -221,6 +300,19 @@ ENGINES.append(
      "kind_free_text": "real environments built for many scenarios; every "
      "array, action object, vector decode and mask compared with an "
      "independent decoder / enumeration; membership by gymnasium contains"})
+ENGINES.append(
+    {"name": "gen", "path": "nv/props/gen.py + nv/gentrace.py",
+     "serves_properties": ["C15", "C16"],
+     "kind_free_text": "nasim's generator called on sampled parameter sets "
+     "under a sys.monitoring line-event budget; results validated clause by "
+     "clause; solvability decided by replaying a model-derived plan on the "
+     "real environment with forced draws"})
+ENGINES.append(
+    {"name": "xproc", "path": "nv/props/repro.py",
+     "serves_properties": ["C14"],
+     "kind_free_text": "cross-process differential runner: the same cases "
+     "in child interpreters with different PYTHONHASHSEED, fingerprints "
+     "compared"})
 
 NOTES = ("Runtime monitoring of the real code only; no compiler sanitizers or "
          "race detectors are used because nasim is single-threaded pure "
